@@ -1,10 +1,11 @@
-CONSTANTS K = 2
-TYS = {"Z"}
+CONSTANTS K = 3
+TYS = {"Z","X"}
 PHS = {0,1,4}
-ETS = {"H"}
-NB = 2
-VARS = {0,1}
+ETS = {"N","H"}
+NB = 1
+VARS = {}
 BB = FALSE
+STRAT = "full"
 INIT Init
 NEXT Next
 INVARIANT Sound
